@@ -27,6 +27,36 @@ CHECKS = {
         design="5/C06",
         note="Trusted: the simulation kernel (threads parked at IPC operations, pickled process state = spawn semantics, message-granular pipes), SimFS below the real xopen with in-process codecs, the stdlib decompressors used by the oracle.",
     ),
+    "C04": dict(
+        level="exploration",
+        text="Exactly-once / conservation checked over the recorded history of each simulated run: seeded cases weighted towards filters, redirect files, discard options and demultiplexing are executed by the real cutadapt.cli.main with the serial runner and with 2-5 simulated workers under a seeded schedule; all closed output files are read back (independent strict parsers, stdlib codecs) and related to each other and to the JSON, text and minimal reports (ids unique across files, counts and base pairs equal file contents, input = output + reported categories, ids in no file = categories without redirect file); every 6th small case re-runs each record alone and compares the sums. Sampling, not enumeration.",
+        design="5/C04",
+        note="Trusted: simulation kernel/SimFS as for C06; ids stay recoverable from the names written; report parsers in props/c04.py.",
+    ),
+    "C05": dict(
+        level="exploration",
+        text="Seeded paired-end cases (two files/interleaved, R1/R2 of very different lengths so chunk limits differ, one-sided adapters, every --pair-filter, LEN/LEN:LEN2/LEN:/:LEN2, redirect pairs, --pair-adapters, demultiplexing) run serially and with 2-5 simulated workers under a seeded schedule plus a filter-free shadow run; oracle over the files: R1/R2 in lock step with equal ids and in input order, each pair in exactly one destination, destination of every pair equal to a small reference model of the documented filter chain evaluated on the shadow records, --pair-adapters same-rank rule.",
+        design="5/C05",
+        note="Trusted: simulation kernel/SimFS as for C06; the reference model (props/model.py) transcribes the documented criteria; match status read from cutadapt's own --rename stamp; float criteria within 1e-4 of the threshold are not judged.",
+    ),
+    "C15": dict(
+        level="exploration",
+        text="Seeded demultiplexing cases ({name} and {name1}/{name2}, plain and compressed templates, decoy adapters that never match, --discard-untrimmed/--untrimmed-output, --times 1-3, filters, empty inputs) run serially, with 2-5 simulated workers under a seeded schedule and once with a plain -o; oracle: created file set equals the documented set (empty files included, valid containers), every record lies in the file selected by its '-y dm={name}' stamp(s), multiset over all demultiplexed files equals the plain run, multi-core files equal single-core files.",
+        design="5/C15",
+        note="Trusted: simulation kernel/SimFS as for C06; the stamp written by cutadapt's PrefixSuffixAdder as witness of the last match.",
+    ),
+    "C19": dict(
+        level="exploration",
+        text="Each seeded case is executed as a reference variant (plain, two files, one core) and 4-7 variants differing only in input container (gz, multi-member gz, bz2, xz, zst), input layout, FASTA vs FASTQ input, output containers/extensions/layout, stdout with/without --fasta and 1 vs 2-5 simulated workers (seeded schedule, buffer size); oracle: same records in every destination (names+sequences when a FASTA side is involved, else also qualities) and the written format equals a transcription of the documented name rule.",
+        design="5/C19",
+        note="Trusted: simulation kernel/SimFS as for C06 (real xopen detection and in-process codecs run; external compressor programs/threads do not); stdlib codecs + backports.zstd for reading outputs.",
+    ),
+    "C20": dict(
+        level="exploration",
+        text="Seeded cases with all adapter types (incl. anywhere, linked), --times 1-3, all actions, --revcomp (single-end), --pair-adapters, always --info-file and --json, run serially and with 2-5 simulated workers (each worker tallies its chunks, main merges) under a seeded schedule; the info-file rows of the same run are tallied per adapter/end (matches, removed length x errors, adjacent bases, 5'/3' split, reverse-complement matches) and must equal the JSON report (adapters_read2 via a mirrored run); error_lengths must equal int(L*rate) for every L.",
+        design="5/C20",
+        note="Trusted: simulation kernel/SimFS as for C06; the info file as independent record of the applied matches (not usable with paired --revcomp, which is therefore not generated).",
+    ),
     "C12": dict(
         level="fault_enumeration",
         text="Storage faults are enumerated, schedules sampled: for seeded base inputs (FASTQ single / two-file / interleaved, plain, gzip, multi-member gzip) EVERY truncation offset of every input file and every single-record corruption kind at EVERY record index is applied to the SimFS bytes, and each faulted input is run with the serial runner and with 2-4 simulated workers under a seeded schedule; plus sampled two-fault sequences, gzip bit flips and chunk-boundary-biased buffer sizes. A hang is decided exactly (main unfinished and no task enabled = DEADLOCK). Oracle: malformed (by an independent strict reader / zlib) => non-zero exit and an error message; exit 0 => input well-formed and every record accounted for; outputs after an error hold only complete records, in input order, that are a prefix of the fault-free run.",
